@@ -2,6 +2,7 @@
 from harness import hcommon, hprop_run, timers
 
 PROP = "C04"
+EXTRA_PROPS = ("C04b",)      # closed form: a silent peer ends the sender after exactly 2N expiries
 
 
 def proj(kind, d):
@@ -15,7 +16,7 @@ def run(tier, seed):
         "acknowledged transfers in which one or both link directions fall silent after the i-th PDU (every i), permanently or for "
         "j < N expiries, limits N = 1..3 (1..5 thorough), sizes 0/5/9, immediate/deferred NAK, plus random configurations; every "
         "call made in a retry step is checked against the virtual clock; distinct = (config class, visited (step, op, exception) set)",
-        theorem="c04_* (correspondence source+dest: counters, events, PDUs)", label="silent link")
+        theorem="c04_* (correspondence source+dest: counters, events, PDUs)", label="silent link", extra_gate=EXTRA_PROPS)
 
 
 def replay(path):
